@@ -59,7 +59,8 @@ def md_tree(rng, depth):
                         "input_type", "output_type", "weight", "input_shape", "w_in", "start_dim"])
         r = rng.random()
         if r < 0.2:
-            out[k] = rng.choice(["", "text", "日本語", "a\nb", "same", "NIRGraph"])
+            out[k] = rng.choice(["", "text", "日本語", "a\nb", "same", "NIRGraph", "spikes> ", " ", "    ", " lead", "tab\t", "trail \n",
+                                 "nbsp\u00a0", "caf\u0065\u0301", "\u2126 ohm"])
         elif r < 0.35:
             out[k] = rng.choice([0, 1, -7, 2 ** 40, 2 ** 63 - 1, -2 ** 63])
         elif r < 0.5:
